@@ -41,30 +41,42 @@ theorem walk_frame :
 theorem walk_visits_once (tbl : Table) (nslots : Nat → Nat) (hc : TableComplete tbl nslots)
     (t : Tree) (hwf : wf tbl t = true) (hb : bounded nslots t = true) :
     (enters (walk tbl (fun _ => true) t)).Perm (allIds t) ∧ Ev.panic ∉ walk tbl (fun _ => true) t := by
-  sorry
+  refine ⟨?_, nopanic_tree tbl _ t hwf⟩
+  rw [← visible_true t]
+  exact prune_tree tbl nslots hc _ t hwf hb
 
 /-- For every callback: the nodes entered are exactly those whose proper ancestors were all kept
     (returning false at a node skips exactly its descendants). -/
 theorem walk_prune (tbl : Table) (nslots : Nat → Nat) (hc : TableComplete tbl nslots)
     (keep : Nat → Bool) (t : Tree) (hwf : wf tbl t = true) (hb : bounded nslots t = true) :
     (enters (walk tbl keep t)).Perm (visible keep t) := by
-  sorry
+  exact prune_tree tbl nslots hc keep t hwf hb
 
 /-- For every callback the callbacks are well bracketed: each kept node's `f(nil)` comes exactly
     once, after all events of its children; a pruned node gets no `f(nil)`. -/
 theorem walk_brackets (tbl : Table) (hnd : NoDefer tbl) (keep : Nat → Bool) (t : Tree)
     (hwf : wf tbl t = true) : wellBracketed keep (walk tbl keep t) = true := by
-  sorry
+  have h := balanced_tree tbl hnd keep t hwf []
+  unfold run at h
+  unfold wellBracketed
+  rw [h]; rfl
 
 /-- Parent before children: the first event of a walk is the entry of the root. -/
 theorem walk_parent_first (tbl : Table) (keep : Nat → Bool) (t : Tree) :
     (walk tbl keep t).head? = some (.enter t.id) := by
-  sorry
+  cases t with
+  | node ty id sl fl kids =>
+    rw [walk_node]
+    simp only [Tree.id]
+    split
+    · rfl
+    · split <;> rfl
 
 /-- Preorder yields a prefix of Walk's sequence and never more than the consumer asked for. -/
 theorem preorder_prefix (tbl : Table) (t : Tree) (n : Nat) :
     preorder tbl t n <+: enters (walk tbl (fun _ => true) t) ∧ (preorder tbl t n).length ≤ n := by
-  sorry
+  unfold preorder
+  exact ⟨List.take_prefix _ _, by simp [List.length_take]; omega⟩
 
 /-! ### Part C — the real table -/
 
@@ -72,10 +84,38 @@ theorem preorder_prefix (tbl : Table) (t : Tree) (n : Nat) :
 theorem tableOf_complete (sch : List TypeInfo)
     (h : sch.all (fun ti => if ti.instrs.isSome then caseComplete ti else true) = true) :
     TableComplete (tableOf sch) (nslotsOf sch) := by
-  sorry
+  intro ty instrs htbl
+  obtain ⟨ti, hty, hmem, hres⟩ := tableOf_some sch ty instrs htbl
+  obtain ⟨l, hl⟩ := resolve_some ti instrs hres
+  have hcc := List.all_eq_true.mp h ti hmem
+  simp only [hl, Option.isSome_some, if_true] at hcc
+  unfold caseComplete at hcc
+  simp only [hl, hres, Bool.and_eq_true] at hcc
+  have hp := List.isPerm_iff.mp hcc.1
+  simpa [nslotsOf, hty] using hp
 
 theorem tableOf_noDefer (sch : List TypeInfo) (h : sch.all noDefer = true) : NoDefer (tableOf sch) := by
-  sorry
+  intro ty instrs htbl i hi hop
+  obtain ⟨ti, _, hmem, hres⟩ := tableOf_some sch ty instrs htbl
+  obtain ⟨l, hl⟩ := resolve_some ti instrs hres
+  have hnd := List.all_eq_true.mp h ti hmem
+  unfold noDefer at hnd
+  simp only [hl] at hnd
+  unfold resolve at hres
+  simp only [hl] at hres
+  obtain ⟨⟨op, f, g⟩, hx, hfx⟩ := mapM_some_mem _ l instrs hres i hi
+  have hne := List.all_eq_true.mp hnd _ hx
+  simp only [bne_iff_ne, ne_eq] at hne
+  cases ho : opOfString op with
+  | none => simp [ho] at hfx
+  | some o =>
+    simp only [ho, Option.some.injEq] at hfx
+    subst hfx
+    simp only at hop
+    split at hop
+    · cases hop
+    · subst hop
+      exact hne (opOfString_defer op ho)
 
 /-- The property for the code as it is now: for every tree over the current node schema that is
     well-formed (what the harness checks of every tree the Go parser returns). -/
@@ -85,6 +125,17 @@ theorem real_walk_visits_once (t : Tree) (hwf : wf (tableOf schema) t = true)
       ∧ Ev.panic ∉ walk (tableOf schema) (fun _ => true) t
       ∧ ∀ keep, wellBracketed keep (walk (tableOf schema) keep t) = true
           ∧ (enters (walk (tableOf schema) keep t)).Perm (visible keep t) := by
-  sorry
+  have hc : TableComplete (tableOf schema) (nslotsOf schema) := by
+    apply tableOf_complete
+    have h := walk_fields_complete
+    rw [List.all_eq_true] at h ⊢
+    intro ti hti
+    have := h ti hti
+    split
+    · next hs => simpa [hs] using this
+    · rfl
+  have hnd : NoDefer (tableOf schema) := tableOf_noDefer schema walk_no_defer
+  obtain ⟨h1, h2⟩ := walk_visits_once _ _ hc t hwf hb
+  exact ⟨h1, h2, fun keep => ⟨walk_brackets _ hnd keep t hwf, walk_prune _ _ hc keep t hwf hb⟩⟩
 
 end ShVerif.C14
